@@ -112,6 +112,15 @@ def main():
         for l in open(res):
             r = json.loads(l); done.add((r["file"], r["index"]))
     pts = [p for p in pts if p not in done][:maxm]
+    if os.environ.get("RERUN"):
+        # re-run the mutants recorded with the given status (their old records are dropped)
+        want = os.environ["RERUN"].split(",")
+        old = [json.loads(l) for l in open(res)]
+        pts = [(r["file"], r["index"]) for r in old if r["status"] in want]
+        with open(res, "w") as fh:
+            for r in old:
+                if r["status"] not in want:
+                    fh.write(json.dumps(r) + "\n")
     print("mutation points total", len(pts), flush=True)
     # static assignment of lanes through a pool with one process per lane
     q = multiprocessing.Queue()
